@@ -4,8 +4,16 @@
   never by the engine or the model, so a broken generator in /repo cannot steer the inputs.
 -/
 import Walleye.Spec.Abs
+import Walleye.Spec.CanonFen
 import Walleye.Generated.Consts
 open Walleye
+
+/-- the `fen` operation for a SPEC position; the text sent is checked to be the canonical text that
+    `Proofs/FenFaithful.fromFen_canonical` speaks about (otherwise a `canonbad` line, which every
+    check reports) -/
+def fenLine (P : Spec.Position) (half full : Nat) : String :=
+  let t := Spec.toFen P half full
+  if canonText P (toString half).toList (toString full).toList == t.toList then s!"fen {t}" else s!"canonbad {t}"
 
 structure Rng where
   s : UInt64
@@ -189,7 +197,7 @@ def fenPosOps (n : Nat) (perPos : List String) : G (List String) := do
     | some P =>
       let half ← below 100
       let full ← pick [1, 2, 40, 255, 256, 300, 65535, 1000000]
-      out := out ++ [s!"fen {Spec.toFen P half full}"] ++ perPos
+      out := out ++ [fenLine P half full] ++ perPos
     | none => pure ()
   return out
 
@@ -209,7 +217,7 @@ def castleLattice (stride : Nat) : G (List String) := do
         if (base.at ⟨ekf, ekr⟩).isNone then
           let P0 := base.put ⟨ekf, ekr⟩ (some ⟨c.opp, .king⟩)
           if Spec.LegalPosition P0 then
-            out := out ++ [s!"fen {Spec.toFen P0 0 1}", "gen all"]
+            out := out ++ [fenLine P0 0 1, "gen all"]
           for k in kinds do
             for xr in [0:8] do
               for xf in [0:8] do
@@ -218,7 +226,7 @@ def castleLattice (stride : Nat) : G (List String) := do
                   if (P0.at ⟨xf, xr⟩).isNone && !(k == .pawn && (xr == 0 || xr == 7)) then
                     let P := P0.put ⟨xf, xr⟩ (some ⟨c.opp, k⟩)
                     if Spec.LegalPosition P then
-                      out := out ++ [s!"fen {Spec.toFen P 0 1}", "gen all"]
+                      out := out ++ [fenLine P 0 1, "gen all"]
   return out
 
 /-- check detection lattice: a king, one enemy piece of every kind on every square, optionally a
@@ -247,7 +255,7 @@ def checkLattice (stride : Nat) : G (List String) := do
                   let bk ← pick [Kind.knight, Kind.bishop, Kind.rook, Kind.queen]
                   let bc ← if ← chance 1 2 then pure c else pure c.opp
                   P := P.put bs (some ⟨bc, bk⟩)
-              out := out ++ [s!"fen {Spec.toFen P 0 1}", "chk"]
+              out := out ++ [fenLine P 0 1, "chk"]
   -- the two kings next to each other (all 8 neighbours) and at distance two (controls): exhaustive
   for c in [Color.white, Color.black] do
     for ks in Spec.allSquares do
@@ -259,7 +267,7 @@ def checkLattice (stride : Nat) : G (List String) := do
             let P : Spec.Position :=
               { cells := Array.replicate 64 none, side := c, wks := false, wqs := false, bks := false, bqs := false, ep := none }
             let P := (P.put ks (some ⟨c, .king⟩)).put ⟨f.toNat, r.toNat⟩ (some ⟨c.opp, .king⟩)
-            out := out ++ [s!"fen {Spec.toFen P 0 1}", "chk"]
+            out := out ++ [fenLine P 0 1, "chk"]
   return out
 
 /-- capture chains through capture-only successors -/
